@@ -5,7 +5,8 @@
     find_column(lexdata, lexpos) = lexpos - lexdata.rfind('\n', 0, lexpos)
     set_positional_info:  start_stream = lexpos of the first symbol, start_line = its lineno,
                           start_column = find_column(start_stream),
-                          end_stream = endlexpos of the last symbol, end_line = its endlineno,
+                          end_stream = endlexpos of the last symbol that has one (a symbol of an empty
+                          production has no end position and is skipped), end_line = its endlineno,
                           end_column = find_column(end_stream) - 1,
                           character_stream = lexdata[start_stream:end_stream]
 
